@@ -462,6 +462,8 @@ def main(argv):
             npoints = min(s0.pos, 90 if ctx.thorough else 70)
             step = 1 if len(programs[0]) == 1 and len(programs) == 2 else 3
             b = bound if (len(programs) == 2 and len(programs[0]) == 1) else 1
+            if programs == [["useOk"], ["useOk"]] and mx == 1:
+                b = 2             # two plain callers of a pool of one: there-and-back schedules also in the quick tier (the size check and the creation are one lock hold)
             pts = range(0, npoints, step)
             if b == 2:
                 pts2 = list(pts)[::2]
